@@ -1,0 +1,380 @@
+//! Verification seams, compiled only with `--cfg mainline_verif`.
+//!
+//! Every source of nondeterminism of the crate (monotonic clock, wall clock,
+//! entropy, hash-map iteration order, the UDP socket and the actor thread) is
+//! routed through an [Env] that a simulator installs per OS thread.
+//! No scheduling logic lives here: the shims only delegate.
+#![allow(missing_docs)]
+
+use std::cell::RefCell;
+use std::hash::{BuildHasher, Hasher};
+use std::io;
+use std::net::{SocketAddr, SocketAddrV4};
+use std::ops::{Deref, DerefMut};
+use std::rc::Rc;
+use std::time::Duration;
+
+/// Everything the simulator owns.
+pub trait Env {
+    /// Monotonic clock of the acting node, in nanoseconds.
+    fn now_ns(&self) -> u64;
+    /// Wall clock of the acting node, microseconds since the unix epoch.
+    fn wall_us(&self) -> u64;
+    /// Entropy of the acting node.
+    fn fill_random(&self, buf: &mut [u8]);
+    /// Seed of hash maps created by the acting node.
+    fn hash_seed(&self) -> u64;
+    fn udp_bind(&self, addr: SocketAddr) -> io::Result<(u64, SocketAddr)>;
+    fn udp_send(&self, sock: u64, buf: &[u8], to: SocketAddr) -> io::Result<usize>;
+    /// May suspend the calling coroutine for at most `timeout`.
+    fn udp_recv(
+        &self,
+        sock: u64,
+        buf: &mut [u8],
+        timeout: Option<Duration>,
+    ) -> io::Result<(usize, SocketAddr)>;
+    fn udp_close(&self, sock: u64);
+    /// Replaces `std::thread::Builder::spawn` of the actor thread.
+    fn spawn(&self, f: Box<dyn FnOnce() + Send + 'static>) -> io::Result<()>;
+    /// Called after every `Actor::tick()`; the snapshot is built only if the closure is called.
+    fn observe(&self, snapshot: &dyn Fn() -> Snapshot);
+}
+
+thread_local! {
+    static ENV: RefCell<Option<Rc<dyn Env>>> = const { RefCell::new(None) };
+}
+
+/// Install (or remove) the environment of the current OS thread.
+pub fn install(env: Option<Rc<dyn Env>>) {
+    ENV.with(|e| *e.borrow_mut() = env);
+}
+
+fn env() -> Rc<dyn Env> {
+    ENV.with(|e| e.borrow().clone())
+        .expect("mainline_verif: no Env installed on this thread")
+}
+
+pub(crate) fn spawn(f: Box<dyn FnOnce() + Send + 'static>) -> io::Result<()> {
+    env().spawn(f)
+}
+
+pub(crate) fn observe(actor: &crate::actor::Actor) {
+    env().observe(&|| actor.verif_snapshot());
+}
+
+// === Clock ===
+
+#[derive(Clone, Copy, PartialEq, Eq, PartialOrd, Ord, Debug, Hash)]
+pub struct Instant(u64);
+
+impl Instant {
+    pub fn now() -> Self {
+        Instant(env().now_ns())
+    }
+
+    pub fn elapsed(&self) -> Duration {
+        Duration::from_nanos(env().now_ns().saturating_sub(self.0))
+    }
+
+    pub fn duration_since(&self, earlier: Instant) -> Duration {
+        Duration::from_nanos(self.0.saturating_sub(earlier.0))
+    }
+}
+
+impl std::ops::Add<Duration> for Instant {
+    type Output = Instant;
+    fn add(self, rhs: Duration) -> Instant {
+        Instant(self.0 + rhs.as_nanos() as u64)
+    }
+}
+
+impl std::ops::Sub<Duration> for Instant {
+    type Output = Instant;
+    fn sub(self, rhs: Duration) -> Instant {
+        Instant(self.0.saturating_sub(rhs.as_nanos() as u64))
+    }
+}
+
+impl std::ops::Sub<Instant> for Instant {
+    type Output = Duration;
+    fn sub(self, rhs: Instant) -> Duration {
+        self.duration_since(rhs)
+    }
+}
+
+#[derive(Clone, Copy, PartialEq, Eq, PartialOrd, Ord, Debug)]
+pub struct SystemTime(u64);
+
+#[derive(Debug)]
+pub struct SystemTimeError;
+
+impl SystemTime {
+    pub const UNIX_EPOCH: SystemTime = SystemTime(0);
+
+    pub fn now() -> Self {
+        SystemTime(env().wall_us())
+    }
+
+    pub fn duration_since(&self, earlier: SystemTime) -> Result<Duration, SystemTimeError> {
+        self.0
+            .checked_sub(earlier.0)
+            .map(Duration::from_micros)
+            .ok_or(SystemTimeError)
+    }
+}
+
+// === Entropy ===
+
+pub mod getrandom {
+    #[derive(Debug)]
+    pub struct Error;
+
+    pub fn fill(buf: &mut [u8]) -> Result<(), Error> {
+        super::env().fill_random(buf);
+        Ok(())
+    }
+}
+
+// === Deterministic hash maps ===
+
+#[derive(Clone, Debug)]
+pub struct DetState(u64);
+
+impl Default for DetState {
+    fn default() -> Self {
+        DetState(env().hash_seed())
+    }
+}
+
+impl BuildHasher for DetState {
+    type Hasher = std::collections::hash_map::DefaultHasher;
+
+    fn build_hasher(&self) -> Self::Hasher {
+        let mut hasher = std::collections::hash_map::DefaultHasher::new();
+        hasher.write_u64(self.0);
+        hasher
+    }
+}
+
+#[derive(Debug, Clone)]
+pub struct HashMap<K, V>(std::collections::HashMap<K, V, DetState>);
+
+impl<K, V> HashMap<K, V> {
+    #[allow(clippy::new_without_default)]
+    pub fn new() -> Self {
+        HashMap(std::collections::HashMap::with_hasher(DetState::default()))
+    }
+}
+
+impl<K, V> Deref for HashMap<K, V> {
+    type Target = std::collections::HashMap<K, V, DetState>;
+    fn deref(&self) -> &Self::Target {
+        &self.0
+    }
+}
+
+impl<K, V> DerefMut for HashMap<K, V> {
+    fn deref_mut(&mut self) -> &mut Self::Target {
+        &mut self.0
+    }
+}
+
+#[derive(Debug, Clone)]
+pub struct HashSet<K>(std::collections::HashSet<K, DetState>);
+
+impl<K> HashSet<K> {
+    #[allow(clippy::new_without_default)]
+    pub fn new() -> Self {
+        HashSet(std::collections::HashSet::with_hasher(DetState::default()))
+    }
+}
+
+impl<K> Deref for HashSet<K> {
+    type Target = std::collections::HashSet<K, DetState>;
+    fn deref(&self) -> &Self::Target {
+        &self.0
+    }
+}
+
+impl<K> DerefMut for HashSet<K> {
+    fn deref_mut(&mut self) -> &mut Self::Target {
+        &mut self.0
+    }
+}
+
+// === Socket ===
+
+#[derive(Debug)]
+pub struct UdpSocket {
+    sock: u64,
+    local: SocketAddr,
+    timeout: std::cell::Cell<Option<Duration>>,
+}
+
+impl UdpSocket {
+    pub fn bind(addr: SocketAddr) -> io::Result<Self> {
+        let (sock, local) = env().udp_bind(addr)?;
+        Ok(UdpSocket {
+            sock,
+            local,
+            timeout: std::cell::Cell::new(None),
+        })
+    }
+
+    pub fn local_addr(&self) -> io::Result<SocketAddr> {
+        Ok(self.local)
+    }
+
+    pub fn set_read_timeout(&self, timeout: Option<Duration>) -> io::Result<()> {
+        self.timeout.set(timeout);
+        Ok(())
+    }
+
+    pub fn recv_from(&self, buf: &mut [u8]) -> io::Result<(usize, SocketAddr)> {
+        env().udp_recv(self.sock, buf, self.timeout.get())
+    }
+
+    pub fn send_to<A: Into<SocketAddr>>(&self, buf: &[u8], to: A) -> io::Result<usize> {
+        env().udp_send(self.sock, buf, to.into())
+    }
+}
+
+impl Drop for UdpSocket {
+    fn drop(&mut self) {
+        // The environment may already be gone when a simulation is torn down.
+        if let Some(env) = ENV.with(|e| e.borrow().clone()) {
+            env.udp_close(self.sock)
+        }
+    }
+}
+
+// === Snapshot of a node's internal state (plain data) ===
+
+#[derive(Debug, Clone, PartialEq)]
+pub struct NodeSnap {
+    pub id: [u8; 20],
+    pub address: SocketAddrV4,
+    /// Time since `last_seen`, on the node's own clock.
+    pub age_ns: u64,
+    pub secure: bool,
+    pub token: Option<Vec<u8>>,
+}
+
+#[derive(Debug, Clone, Default)]
+pub struct TableSnap {
+    pub id: [u8; 20],
+    /// (bucket key, entries in bucket order)
+    pub buckets: Vec<(u8, Vec<NodeSnap>)>,
+    /// Result of `RoutingTable::size()`.
+    pub size: usize,
+    /// Result of `RoutingTable::is_empty()`.
+    pub is_empty: bool,
+    /// Number of items yielded by `RoutingTable::nodes()`.
+    pub iterated: usize,
+    /// Result of `RoutingTable::to_bootstrap()`.
+    pub to_bootstrap: Vec<String>,
+    pub dht_size_estimates_count: usize,
+    pub dht_size_estimates_sum: f64,
+    pub responders_samples_count: usize,
+    pub responders_size_estimates_sum: f64,
+    pub responders_subnets_sum: usize,
+    pub dht_size_estimate: (usize, f64),
+    pub average_subnets: usize,
+    pub responders_based_dht_size_estimate: usize,
+}
+
+#[derive(Debug, Clone)]
+pub struct IterativeQuerySnap {
+    pub target: [u8; 20],
+    /// 0 find_node, 1 get_peers, 2 get_signed_peers, 3 get (value)
+    pub kind: u8,
+    pub visited: Vec<SocketAddrV4>,
+    pub inflight_tids: Vec<u32>,
+    pub closest: Vec<NodeSnap>,
+    pub responders: Vec<NodeSnap>,
+    pub responses: usize,
+    pub votes: Vec<(SocketAddrV4, u32)>,
+}
+
+#[derive(Debug, Clone)]
+pub struct PutQuerySnap {
+    pub target: [u8; 20],
+    /// 0 announce_peer, 1 announce_signed_peer, 2 put_immutable, 3 put_mutable
+    pub kind: u8,
+    pub inflight_tids: Vec<u32>,
+    pub stored_at: u64,
+    /// (count, code)
+    pub errors: Vec<(u64, i32)>,
+    pub extra_nodes: usize,
+}
+
+#[derive(Debug, Clone)]
+pub struct CachedQuerySnap {
+    pub target: [u8; 20],
+    pub kind: u8,
+    pub dht_size_estimate: f64,
+    pub responders_dht_size_estimate: f64,
+    pub subnets: u8,
+    pub closest_responding_nodes: Vec<NodeSnap>,
+}
+
+#[derive(Debug, Clone)]
+pub struct MutableSnap {
+    pub target: [u8; 20],
+    pub key: [u8; 32],
+    pub seq: i64,
+    pub value: Vec<u8>,
+    pub signature: [u8; 64],
+    pub salt: Option<Vec<u8>>,
+}
+
+#[derive(Debug, Clone, Default)]
+pub struct StoreSnap {
+    /// Most recently used first.
+    pub immutable: Vec<([u8; 20], Vec<u8>)>,
+    pub mutable: Vec<([u8; 20], MutableSnap)>,
+    pub peers: Vec<([u8; 20], Vec<([u8; 20], SocketAddrV4)>)>,
+    pub signed_peers: Vec<([u8; 20], Vec<([u8; 32], u64)>)>,
+    pub immutable_cap: usize,
+    pub mutable_cap: usize,
+    pub peers_info_hashes_cap: usize,
+    pub signed_peers_info_hashes_cap: usize,
+    pub max_peers: usize,
+    pub max_signed_peers: usize,
+}
+
+#[derive(Debug, Clone, Default)]
+pub struct SocketSnap {
+    pub next_tid: u32,
+    /// (tid, to, age_ns) of every retained entry, expired or not
+    pub inflight: Vec<(u32, SocketAddrV4, u64)>,
+    pub request_timeout_ns: u64,
+    pub poll_interval_ns: u64,
+    pub server_mode: bool,
+}
+
+#[derive(Debug, Clone)]
+pub struct Snapshot {
+    pub id: [u8; 20],
+    pub local_addr: SocketAddrV4,
+    pub server_mode: bool,
+    pub firewalled: bool,
+    pub public_address: Option<SocketAddrV4>,
+    pub bootstrap: Vec<SocketAddrV4>,
+    pub routing_table: TableSnap,
+    pub signed_peers_routing_table: TableSnap,
+    pub iterative_queries: Vec<IterativeQuerySnap>,
+    pub put_queries: Vec<PutQuerySnap>,
+    /// (target, number of waiting callers)
+    pub put_senders: Vec<([u8; 20], usize)>,
+    pub get_senders: Vec<([u8; 20], usize)>,
+    /// Most recently used first.
+    pub cached_iterative_queries: Vec<CachedQuerySnap>,
+    pub store: StoreSnap,
+    pub socket: SocketSnap,
+    pub since_table_refresh_ns: u64,
+    pub since_table_ping_ns: u64,
+    /// `Info` as the public API reports it.
+    pub info_dht_size_estimate: (usize, f64),
+    pub info_routing_table_size: usize,
+}
